@@ -381,7 +381,7 @@ Proof.
 Qed.
 
 (** ** additivity over a partition of the markers *)
-Lemma firstn_skipn_dot (r : list Z) (k : nat) (c : list Q) U1 U2 kk : length (firstn k r) = length U1 ->
+Lemma firstn_skipn_dot (r : list Z) (k : nat) U1 U2 kk : length (firstn k r) = length U1 ->
   dotQ (map inject_Z r) (col 0 kk (U1 ++ U2)) ==
   dotQ (map inject_Z (firstn k r)) (col 0 kk U1) + dotQ (map inject_Z (skipn k r)) (col 0 kk U2).
 Proof.
@@ -403,7 +403,7 @@ Proof.
   rewrite (gebv_numpy_entry g1 (map (firstn k) Z) v1 i kk) by (rewrite ?T1, ?map_length; assumption).
   rewrite (gebv_numpy_entry g2 (map (skipn k) Z) v2 i kk) by (rewrite ?T2, ?map_length; assumption).
   rewrite (nth_map_in (firstn k) [] []), (nth_map_in (skipn k) [] []) by assumption.
-  rewrite EU. apply firstn_skipn_dot; [exact [] |].
+  rewrite EU. apply firstn_skipn_dot.
   (* the row has all the columns: from the shape check of the full product *)
   unfold gebv_numpy in E. destruct (ncols_ok _ Z) eqn:C; [|discriminate]. unfold ncols_ok in C. rewrite forallb_forall in C.
   specialize (C (nth i Z []) (nth_In _ _ Hi)). apply Nat.eqb_eq in C. rewrite EU, app_length in C.
